@@ -371,7 +371,7 @@ def run_shard(shard):
                         for z in shard["zones"]:
                             with worker.guarded(acc, "add", {"kind": "dt", "z": z, "f": [y, m, d, 13, 30, 15, 123456], "kw": kw}):
                                 check_dt(acc, pendulum, z, (y, m, d, 13, 30, 15, 123456), kw,
-                                         durations=(i % 2 == d % 2) or shard["thorough"])
+                                         durations=(i % 3 == d % 3) or shard["thorough"])
         acc.sample({"start": [shard["years"][0], 1, 31], "amount": A[9], "zones": [str(z) for z in shard["zones"]]})
     elif k == "dst-target":
         # starts chosen so that the target wall time is skipped / repeated
